@@ -412,21 +412,8 @@ func c15Worker(c *mc.Ctx) {
 			}
 		}
 	}
-	// range algebra: 3 (thorough: 4) rules, each one range over the points a..f
-	{
-		nr := 3
-		if !c.Quick() {
-			nr = 4
-		}
-		for i := int64(0); i < rangeAlgebraSize(nr); i++ {
-			if !c.Mine(i) {
-				continue
-			}
-			for _, v := range c02One(ws, fmt.Sprintf("range-algebra-%d", nr), i, rangeAlgebraSpec(i, nr), 1, &c.Stats, "C15", inDomain) {
-				c.Stats.Violate(v)
-			}
-		}
-	}
+	// range algebra: rules that are each one range over a few adjacent points
+	rangeAlgebraRun(c, ws, "C15", inDomain)
 	// literals of <= 3 code points over the boundary points
 	lits := []int{0, '\n', '\'', '\\', 'a', 0x80, 0xFFFD, 0x10FFFF}
 	n = 0
@@ -479,7 +466,7 @@ func init() {
 		Level: "exploration",
 		Rule: "(a) rang3.Flatten and rang3.Normalize on every list of up to 3 (quick) / 4 (thorough) ranges with end points in {0,1,2,3,0x10FFFC..0x10FFFF}, rang3.Subtract on every pair of lists of up to 2 ranges, compared with the harness's interval arithmetic (sortedness, disjointness, same set, exact partition of every original range); " +
 			"(b) class expressions [..], ~[..], [..]-[..] with items and ranges over boundary code points (0, \\t \\n \\r, '-', '\\\\', ']', 0x7F/0x80, 0xD7FF/0xE000, 0xFFFD, 0x10FFFE/0x10FFFF) and literals of up to 3 code points, written as lox text, through the real front end to the emitted table: product search of the real state machine against the set-theoretic meaning on both end points and a middle point of every atom; " +
-			"(c) rule sets of overlapping classes (range splitting feeding on its own output, then merging); non-trivial = lists of >= 3 ranges and class specifications searched",
+			"(c) rule sets of overlapping classes (range splitting feeding on its own output, then merging), including every specification of 3 rules that are each one range over the points a..f and of 4 over a..e (thorough: 4 over a..f, 5 over a..d), and the same classes written with verbatim non-ASCII characters; non-trivial = lists of >= 3 ranges and class specifications searched",
 		Assume: []string{"reference: internal/ivl interval sets", "surrogate code points cannot be written with \\u escapes (they fold to U+FFFD) and are outside the domain"},
 		Worker: c15Worker,
 		Replay: c15Replay,
